@@ -1,0 +1,25 @@
+//go:build verif
+// +build verif
+
+package log
+
+// VerifSegPrevs returns prevIndex of each segment from first to last.
+func (l *Log) VerifSegPrevs() []uint64 {
+	var prevs []uint64
+	for s := l.first; s != nil; s = s.next {
+		prevs = append(prevs, s.prevIndex)
+		if s == l.last {
+			break
+		}
+	}
+	return prevs
+}
+
+// VerifFlushed returns the highest index covered by a completed segment sync.
+func (l *Log) VerifFlushed() uint64 {
+	synced := l.last.synced
+	if synced < 0 {
+		synced = 0
+	}
+	return l.last.prevIndex + uint64(synced)
+}
